@@ -784,7 +784,7 @@ impl Core {
         {
             // the fault decision is made at completion; an early-visible write
             // that later fails stays visible (a failed write may have reached
-            // the page cache) -- only used in fault-free profiles.
+            // the page cache) -- the fault profiles draw this knob too: part of the fault model (F55).
             let r = &self.reqs.borrow()[id];
             let mut files = self.files.borrow_mut();
             files[file].content.write(off, r.data.as_ref().unwrap());
